@@ -80,6 +80,55 @@ pub fn merchant_variant(base: u64, part: u8) -> Arc<Merchant> {
     m
 }
 
+/// A merchant equal to `base` in everything except ONE group element (moved by a generator):
+/// part 0 = an element of the signing public key, 1 = of the revocation-commitment parameters,
+/// 2 = of the range parameters' public key. `None` if the library's decoders refuse such a value.
+pub fn merchant_element_variant(base: u64, part: u8, sel: u64) -> Option<Arc<Merchant>> {
+    use crate::engine::wire::Kind;
+    use crate::props::c08::{change_atom, AtomChange};
+    use crate::props::common::ScSpec;
+    fn moved<T: Serialize + DeserializeOwned>(v: &T, prefix: &str, sel: u64) -> Option<(T, String)> {
+        let img = Image::must(v);
+        let idxs: Vec<usize> = (0..img.atoms.len()).filter(|&i| matches!(img.atoms[i].kind, Kind::G1 | Kind::G2) && img.atoms[i].path.starts_with(prefix)).collect();
+        if idxs.is_empty() {
+            return None;
+        }
+        let i = idxs[(sel % idxs.len() as u64) as usize];
+        let bytes = change_atom(&img, i, &AtomChange::Shift(ScSpec::One))?;
+        wire::dec::<T>(&bytes).ok().map(|t| (t, img.atoms[i].path.clone()))
+    }
+    static C: OnceLock<Mutex<HashMap<(u64, u8, String), Arc<Merchant>>>> = OnceLock::new();
+    let c = C.get_or_init(|| Mutex::new(HashMap::new()));
+    let a = merchant(base);
+    let mut kp = copy(a.cfg.signing_keypair());
+    let mut rev = a.cfg.revocation_commitment_parameters().clone();
+    let mut range = a.cfg.range_constraint_parameters().clone();
+    let path = match part {
+        0 => {
+            let (v, p) = moved(&kp, "pk.", sel)?;
+            kp = v;
+            p
+        }
+        1 => {
+            let (v, p) = moved(&rev, "", sel)?;
+            rev = v;
+            p
+        }
+        _ => {
+            let (v, p) = moved(&range, "public_key.", sel)?;
+            range = v;
+            p
+        }
+    };
+    let key = (base, part, path);
+    if let Some(m) = c.lock().unwrap().get(&key) {
+        return Some(m.clone());
+    }
+    let m = Arc::new(build_merchant(base * 10 + part as u64 + 7000, merchant::Config::from_parts(kp, rev, range)));
+    c.lock().unwrap().insert(key, m.clone());
+    Some(m)
+}
+
 /// Copy a value through its wire form (customer stages, proofs and blinded signatures are not `Clone`).
 pub fn copy<T: Serialize + DeserializeOwned>(v: &T) -> T {
     wire::dec::<T>(&wire::enc(v)).expect("a value the library produced decodes again")
